@@ -231,6 +231,14 @@ TYPED = st.one_of(
 )
 
 
+def _operand(e):
+    """operand of a binary operator: a bare keyword literal (NULL, TRUE, FALSE) is written in parentheses"""
+    real = [l for l in e if l[0] != 'mark']
+    if len(real) == 1 and real[0][0] == 'kw':
+        return W('paren', paren(e))
+    return e
+
+
 @functools.lru_cache(maxsize=None)
 def expr(depth=2):
     base = st.one_of(value_literal.map(lambda l: [l]), column_ref, column_ref, literal.map(lambda l: [l]))
@@ -243,7 +251,7 @@ def expr(depth=2):
                                             seq(kw('ORDER BY'), comma_list(t[1])) if t[1] else None)))))
     return st.one_of(
         base, base, base, base, base, base,
-        st.tuples(sub, st.sampled_from(BINOPS), sub).map(lambda t: W('binop', seq(t[0], opl(t[1]), tight_first(t[2])))),
+        st.tuples(sub, st.sampled_from(BINOPS), sub).map(lambda t: W('binop', seq(_operand(t[0]), opl(t[1]), tight_first(_operand(t[2]))))),
         st.tuples(fn, st.lists(sub, min_size=0, max_size=3), over).map(lambda t: func_call(*t)),
         sub.map(lambda e: W('paren', paren(e))),
         st.tuples(st.one_of(st.none(), st.none(), expr(0)), st.lists(st.tuples(cond(depth - 1), sub), min_size=1, max_size=2),
@@ -251,7 +259,7 @@ def expr(depth=2):
         st.tuples(st.none(), st.lists(st.tuples(cond(0), expr(0)), min_size=1, max_size=2), st.one_of(st.none(), expr(0))).map(lambda t: case_expr(*t)),
         st.tuples(sub, st.sampled_from(TYPES)).map(lambda t: seq(W('paren', paren(t[0])), P('::'), L('type', t[1], True))),
         st.tuples(column_ref, st.sampled_from(TYPES)).map(lambda t: seq(t[0], P('::'), L('type', t[1], True))),
-        st.tuples(sub, st.sampled_from(TYPES)).map(lambda t: seq(L('kw', 'CAST'), paren(seq(t[0], kw('AS'), L('type', t[1]))))),
+        st.tuples(sub, st.sampled_from(TYPES)).map(lambda t: W('func', seq(L('name', 'CAST', False, func=True), L('lp', '(', True, force=True), tight_first(seq(t[0], kw('AS'), L('type', t[1]))), RP()), name='CAST', nargs=-1)),
         TYPED.map(typed_literal),
         st.tuples(plain_name, st.integers(0, 9)).map(lambda t: seq(t[0], L('lb', '[', True, force=True), L('num', str(t[1]), True), L('rb', ']', True))),
         st.just(func_call('count', [[L('star', '*', True)]])),
@@ -277,10 +285,17 @@ def cond(depth=2):
         simple, simple, simple, simple, simple,
         st.tuples(sub, st.sampled_from(['AND', 'OR']), sub).map(lambda t: seq(t[0], kw(t[1], clause=True), t[2])),
         sub.map(lambda c: W('paren', paren(c))),
-        sub.map(lambda c: seq(kw('NOT'), c)),
+        sub.map(lambda c: seq(kw('NOT'), W('paren', paren(c)) if _starts_with_null(c) else c)),      # NOT NULL would lex as one keyword
         st.tuples(e, select(depth - 1)).map(lambda t: seq(t[0], kw('IN'), W('paren', paren(t[1]), subquery=True))),
         select(depth - 1).map(lambda s: seq(kw('EXISTS'), W('paren', paren(s), subquery=True))),
     )
+
+
+def _starts_with_null(lex):
+    for l in lex:
+        if l[0] != 'mark':
+            return l[0] == 'kw' and l[1].upper() == 'NULL'
+    return False
 
 
 alias = st.one_of(st.none(), st.none(), st.tuples(st.booleans(), any_name))
@@ -290,6 +305,12 @@ def with_alias(item, al):
     if al is None:
         return item
     as_, n = al
+    real = [l for l in item if l[0] != 'mark']
+    if len(real) == 1 and real[0][0] == 'kw':
+        # a bare keyword literal: NULL takes an alias with AS only, TRUE/FALSE none (not forms the grouping engine documents)
+        if real[0][1].upper() != 'NULL':
+            return item
+        as_ = True
     return seq(item, kw('AS') if as_ else None, [n[0], n[1], False, dict(n[3], alias=True)])
 
 
@@ -315,8 +336,10 @@ def select(depth=2):
                          st.just([L('star', '*')]),
                          plain_name.map(lambda n: [n, P('.', True, force=True), L('star', '*', True, force=True)]))
     joins = st.one_of(st.just([]), st.just([]), st.lists(st.tuples(st.sampled_from(JOINS), table_ref(d), cond(0)), max_size=2))
+    # an ordering suffix is written after column references and numbers only (a bare keyword such as NULL is not an
+    # order expression the grouping engine is documented to handle)
     order_item = st.tuples(expr(0), st.sampled_from([None, None, 'ASC', 'DESC', 'DESC NULLS LAST', 'ASC NULLS FIRST'])).map(
-        lambda t: seq(t[0], L('kw', t[1], False, order=True) if t[1] else None))
+        lambda t: seq(t[0], L('kw', t[1], False, order=True) if t[1] and t[0][0][0] in ('name', 'qname', 'num') else None))
 
     def mk(distinct, items, froms, js, where, group, having, order, limit):
         out = [L('kw', 'SELECT', False, lead='SELECT')]
